@@ -2,7 +2,7 @@
 //! shuttle::future::block_on, future tasks are spawned with shuttle::future::spawn.
 use crate::rec::log;
 use serde_json::{json, Value};
-use shuttle_tokio_impl_inner::sync::{mpsc, oneshot, watch, Mutex, Notify, RwLock, Semaphore};
+use shuttle_tokio_impl_inner::sync::{mpsc, oneshot, watch, Mutex, Notify, OnceCell, RwLock, Semaphore};
 use std::sync::Arc;
 
 enum Tx {
@@ -19,6 +19,7 @@ struct Shared {
     sems: Vec<Arc<Semaphore>>,
     mutexes: Vec<Arc<Mutex<i64>>>,
     rwlocks: Vec<Arc<RwLock<i64>>>,
+    cells: Vec<OnceCell<i64>>,
     aborts: std::sync::Mutex<Vec<Option<shuttle::future::AbortHandle>>>,
 }
 
@@ -293,6 +294,44 @@ async fn body(sh: Arc<Shared>, ix: usize, ops: Vec<Value>, mut h: Handles) {
                 drop(wguards[ou].take());
                 0
             }
+            // ---- OnceCell ("w" = scheduling points inside the initialiser)
+            "oc_get" => sh.cells[ou].get().copied().unwrap_or(-1),
+            "oc_initd" => sh.cells[ou].initialized() as i64,
+            "oc_set" => match sh.cells[ou].set(v) {
+                Ok(()) => 0,
+                Err(e) if e.is_already_init_err() => -1,
+                Err(_) => -2,
+            },
+            "oc_init" => {
+                let w = op["w"].as_i64().unwrap_or(0);
+                *sh.cells[ou]
+                    .get_or_init(|| async move {
+                        for _ in 0..w {
+                            shuttle::future::yield_now().await;
+                        }
+                        v
+                    })
+                    .await
+            }
+            "oc_try" => {
+                let w = op["w"].as_i64().unwrap_or(0);
+                let r = sh.cells[ou]
+                    .get_or_try_init(|| async move {
+                        for _ in 0..w {
+                            shuttle::future::yield_now().await;
+                        }
+                        if v >= 0 {
+                            Ok(v)
+                        } else {
+                            Err(())
+                        }
+                    })
+                    .await;
+                match r {
+                    Ok(x) => *x,
+                    Err(()) => -3,
+                }
+            }
             "abort" => {
                 if let Some(a) = sh.aborts.lock().unwrap()[v as usize].as_ref() {
                     a.abort();
@@ -397,6 +436,7 @@ pub fn run_main(p: Arc<Value>) {
     let nmx = p["nmx"].as_u64().unwrap_or(0) as usize;
     let nwt = p["nwt"].as_u64().unwrap_or(0) as usize;
     let nrwl = p["nrwl"].as_u64().unwrap_or(0) as usize;
+    let noc = p["noc"].as_u64().unwrap_or(0) as usize;
     let tasks = p["tasks"].as_array().unwrap().clone();
     let n = tasks.len();
     let sh = Arc::new(Shared {
@@ -404,6 +444,7 @@ pub fn run_main(p: Arc<Value>) {
         sems: sems.iter().map(|&k| Arc::new(Semaphore::new(k))).collect(),
         mutexes: (0..nmx).map(|_| Arc::new(Mutex::new(0))).collect(),
         rwlocks: (0..nrwl).map(|_| Arc::new(RwLock::new(0))).collect(),
+        cells: (0..noc).map(|_| OnceCell::new()).collect(),
         aborts: std::sync::Mutex::new((0..n).map(|_| None).collect()),
     });
     let mut hs: Vec<Handles> = (0..n)
